@@ -259,9 +259,12 @@ CLAIMED = {
                 "excluded indices: the table handed to the formatter holds exactly the points the API sequence low_pass/high_pass/set_mask leaves "
                 "unmasked, with the API's numbers; an empty selection is refused. 'fit' and 'drt --plot-overlay': with fit_circuit / calculate_drt "
                 "replaced by recorders, every call (refinements included) carries the command-line settings (symbolic max_nfev, num_procs, timeout, "
-                "lambda, threshold), refinements chain on the previous result, and the tables printed for a spectrum come from its own / the final result.",
+                "lambda, threshold), refinements chain on the previous result, and the tables printed for a spectrum come from its own / the final result. 'circuit --simulate': "
+                "the real simulate_spectra / individual_plots with circuits of symbolic parameter values, a symbolic frequency range / density and 0..1 marked frequencies: every "
+                "circuit is simulated by the API on the grid _interpolate returns for exactly the command-line range, the table handed to the formatter and the marked points are "
+                "that circuit's API impedances, labelled with its code.",
         "design_ref": "DESIGN.md section 4, C19",
-        "note": "PARTIAL: text formatting (pandas), argparse, files, matplotlib, the numerical pipelines and the commands circuit --simulate / test / zhit / drt without overlay are outside; "
+        "note": "PARTIAL: text formatting (pandas), argparse, files, matplotlib, the numerical pipelines and the commands test / zhit / drt without overlay are outside; "
                 "numerals are uninterpreted numbers whose syntax is decided exactly on the symbolic characters",
     },
     "C20": {
